@@ -182,6 +182,32 @@ def run(model: Model, rep: Report) -> None:
     for fld in ("resources", "fontmap", "xobjmap", "csmap"):
         wit = g13.all_path_pass(g13.entry, lambda nd, fld=fld: nd.ast is not None and nd.kind == "stmt" and any(isinstance(t, ast.Attribute) and isinstance(t.ctx, ast.Store) and unparse(t) == "self." + fld for t in ast.walk(nd.ast)))
         r13.check(wit is None, site(ir), ir.qualname, f"self.{fld} is (re)set on every path through init_resources", why=f"a path leaves init_resources without resetting self.{fld}: a page with no /Resources is rendered with the fonts and XObjects of the page before it when processed in one call, and with none when processed alone")
+    r14 = rep.rule("C12-R14", "DEPEND", "no result depends on a memory address: id(obj) is used to look things up (subscript key, membership, equality), never as a value that takes part in an ordering (heap entries, sort keys, tuples that are compared)", 2)
+    n14 = 0
+    for q14, f14 in sorted(model.funcs.items()):
+        if f14.parent is not None or isinstance(f14.node, ast.Lambda):
+            continue
+        parents = {}
+        for n in ast.walk(f14.node):
+            for ch in ast.iter_child_nodes(n):
+                parents[id(ch)] = n
+        for c in ast.walk(f14.node):
+            if not (isinstance(c, ast.Call) and isinstance(c.func, ast.Name) and c.func.id == "id" and len(c.args) == 1):
+                continue
+            n14 += 1
+            par = parents.get(id(c))
+            lookup = (
+                (isinstance(par, ast.Subscript) and par.slice is c)
+                or (isinstance(par, ast.Compare) and all(isinstance(o, (ast.In, ast.NotIn, ast.Eq, ast.NotEq, ast.Is, ast.IsNot)) for o in par.ops))
+                or (isinstance(par, ast.Dict) and c in par.keys)
+                or (isinstance(par, ast.DictComp) and par.key is c)
+                or (isinstance(par, ast.Call) and isinstance(par.func, ast.Attribute) and par.func.attr in ("add", "discard", "remove", "get", "pop", "setdefault") and c in par.args[:1])
+                or (isinstance(par, (ast.JoinedStr, ast.FormattedValue)))
+                or (isinstance(par, ast.BinOp) and isinstance(par.op, ast.Mod))
+            )
+            r14.check(bool(lookup), site(f14, c), f14.qualname, f"`{unparse(par)[:70] if par is not None else unparse(c)}`: id() used " + ("as a lookup key" if lookup else "as a value"), why="the address of an object becomes part of a value that is ordered or compared: where objects are allocated depends on everything the process did before, so equal candidates are ranked differently from run to run and after other documents")
+    if n14 == 0:
+        raise AnchorMissing("no use of id() found (group_textboxes keys its serial numbers by id)")
     # ---------------------------------------------------------------- R1
     r1 = rep.rule("C12-R1", "EFFECTS", "global state inventory: no function writes module/class-level state outside the reviewed memo tables", 20)
     writes = global_writes(model, inv)
